@@ -20,7 +20,7 @@ for pid in ALL:
         'engine': 'verus-extract + kani' if c.get('verus') else 'kani',
         'level_claimed': {
             'category': c['level'],
-            'text': c.get('level_text', c['title']),
+            'text': c.get('level_text', 'Decided by contracts on the real code: ' + '; '.join(c.get('trusted', [])[:3]) + ('. Verus units (unbounded): ' + ', '.join(c['verus']) if c.get('verus') else '') + '. See DESIGN.md section A.2 for the function list; bounded harnesses are listed separately in the evidence and never counted as proved.'),
             'design_ref': 'DESIGN.md §5 ' + pid,
         },
         'level_note': c.get('level_note', 'Trusted: ' + '; '.join(c.get('trusted', [])) + '. Not decided: ' + '; '.join(c.get('undecided_clauses', []))),
